@@ -75,6 +75,7 @@ type Node struct {
 	ReopenFails atomic.Bool
 	Closes      atomic.Int64
 	Reopens     atomic.Int64
+	IsWrapped   bool // registered behind Wrapped: Reopen is counted / failed by the outermost wrapper
 
 	// Gate, when non-nil, is received from inside Process before returning
 	// (lets a driver keep a node "running").
@@ -142,6 +143,10 @@ type Replaced struct {
 }
 
 func (n *Node) Reopen() error {
+	if n.IsWrapped {
+		// the registered node is the wrapper: its own Reopen counts and fails (see Wrapped.Reopen)
+		return nil
+	}
 	n.Reopens.Add(1)
 	if n.ReopenFails.Load() {
 		return ErrReopen
@@ -178,12 +183,22 @@ func (c *Closer) Close(ctx context.Context) error {
 // Wrapped hides a node behind Unwrap (eventlogger.NodeUnwrapper).
 type Wrapped struct {
 	Inner eventlogger.Node
+	Outer *Node // set on the outermost wrapper, i.e. the object that is registered with the Broker
 }
 
 func (w *Wrapped) Process(ctx context.Context, e *eventlogger.Event) (*eventlogger.Event, error) {
 	return w.Inner.Process(ctx, e)
 }
-func (w *Wrapped) Reopen() error              { return w.Inner.Reopen() }
+func (w *Wrapped) Reopen() error {
+	if w.Outer != nil {
+		// what Broker.Reopen owes every registered node is a call of *its* Reopen, not of whatever it wraps
+		w.Outer.Reopens.Add(1)
+		if w.Outer.ReopenFails.Load() {
+			return ErrReopen
+		}
+	}
+	return w.Inner.Reopen()
+}
 func (w *Wrapped) Type() eventlogger.NodeType { return w.Inner.Type() }
 func (w *Wrapped) Unwrap() eventlogger.Node   { return w.Inner }
 
@@ -192,9 +207,11 @@ func (w *Wrapped) Unwrap() eventlogger.Node   { return w.Inner }
 func Wrap(n *Node, style int) (node eventlogger.Node, observableClose bool) {
 	switch style {
 	case 2:
-		return &Wrapped{Inner: &Closer{n}}, true
+		n.IsWrapped = true
+		return &Wrapped{Inner: &Closer{n}, Outer: n}, true
 	case 3:
-		return &Wrapped{Inner: &Wrapped{Inner: &Closer{n}}}, true
+		n.IsWrapped = true
+		return &Wrapped{Inner: &Wrapped{Inner: &Closer{n}}, Outer: n}, true
 	case 4:
 		return n, false
 	default:
